@@ -25,6 +25,7 @@ func init() {
 			{"C10.skip-only-done-or-null", "loadRange skips a chunk only when its done bit is set or it is the null chunk", 1, c10SkipOnly},
 			{"C10.null-skip-needs-truncate", "NewSparseFile succeeds only after Truncate or an accepted state for a size-matching file", 1, c10Truncate},
 			{"C10.state-accept", "stateFromReader accepts only a bitmap whose length equals the value derived from the chunk count", 1, c10StateAccept},
+			{"C10.range-boundaries", "indexRange includes exactly the chunks overlapping the byte range (partition points of its comparisons)", 2, c10RangeBoundaries},
 			{"C10.locks", "done guarded by mu; lock pairing", 5, c10Locks},
 		},
 	})
@@ -476,4 +477,18 @@ func c10StateAccept(c *Ctx) {
 func c10Locks(c *Ctx) {
 	c.guardedBy(guardedField{"sparseFileLoader", "done", "mu", "bitmap of populated chunks"}, nil)
 	c.lockPairing("sparseFileLoader", "SparseFile", "SparseFileHandle")
+}
+
+// c10RangeBoundaries: indexRange must return every chunk that overlaps [start, start+length).
+func c10RangeBoundaries(c *Ctx) {
+	fn := c.mustFn("sparseFileLoader.indexRange")
+	if fn == nil {
+		return
+	}
+	fns := withClosures(fn)
+	c.dumpPartitions()
+	c.boundaryRule("sparseFileLoader.indexRange", fns, []boundarySpec{
+		{"first-chunk", map[string]int{"param#1": 1, "[i]IndexChunk.Start": -1, "[i]IndexChunk.Size": -1}, -1, 1, "chunk i is the first needed one iff start < chunks[i].Start+chunks[i].Size"},
+		{"last-chunk", map[string]int{"[i]IndexChunk.Start": 1, "param#1": -1, "param#2": -1}, -1, 1, "chunk i is needed iff chunks[i].Start <= start+length-1"},
+	})
 }
